@@ -70,11 +70,11 @@ func mrLocal(fam string) *net.UDPAddr {
 	return &net.UDPAddr{IP: net.IP{192, 168, 0, 1}, Port: 7000}
 }
 
-var mrDPC = map[string]string{"d_read": "idle", "d_lookup": "lookup", "d_ufrag": "ufrag", "d_enq": "enq", "done": "idle", "absent": "idle"}
+var mrDPC = map[string]string{"d_read": "idle", "d_lookup": "lookup", "d_ufrag": "ufrag", "d_enq": "enq", "d_put": "put", "done": "idle", "absent": "idle"}
 var mrWPC = map[string]string{"w_start": "start", "contains": "contains", "append": "append", "register": "register", "done": "idle", "absent": "idle"}
 var mrRPC = map[string]string{"r_unlist": "unlist", "r_unmap": "unmap", "done": "idle", "absent": "idle"}
 var mrWEvent = map[string]string{"w_start": "WCheck", "contains": "WContains", "append": "WAppend", "register": "WRegister"}
-var mrDEvent = map[string]string{"d_lookup": "DLookup", "d_ufrag": "DUfrag", "d_enq": "DEnq"}
+var mrDEvent = map[string]string{"d_lookup": "DLookup", "d_ufrag": "DUfrag", "d_enq": "DEnq", "d_put": "DPut"}
 var mrREvent = map[string]string{"r_unlist": "RUnlist", "r_unmap": "RUnmap"}
 
 func TestMuxRoute(t *testing.T) {
@@ -343,7 +343,7 @@ func TestMuxRoute(t *testing.T) {
 						logEv("DRead", map[string]any{"x": x, "kd": kd})
 						ok = true
 					}
-				case "DLookup", "DUfrag", "DEnq":
+				case "DLookup", "DUfrag", "DEnq", "DPut":
 					ok = conc && mrDEvent[s.at("d")] == name && gated("d")
 				case "RStart":
 					if conc && mrRPC[s.at("r")] == "idle" {
